@@ -698,9 +698,12 @@ package apd
 // ---------------------------------------------------------------- context.go
 
 //@ func Condition.String
-//@   trusted builds the error text only; its panic is unreachable for flags within the twelve documented bits (requires)
+//@   props C04
 //@   requires closed(r)
 //@   pure
+//@   allocates
+//@   loop 1 invariant closed(r) && i != 0 && (i & bvdec(i)) == 0 && (r & bvdec(i)) == 0
+//@   loop 1 decreases 8192 - bvint(i)
 
 //@ func (*Context).goError
 //@   props C03 C02
@@ -1116,6 +1119,13 @@ package apd
 //@   ensures [invkeep] (old(inv(d)) ==> inv(d)) && closed(e.Flags) && e.Ctx == old(e.Ctx)
 //@   delegates (*Context).Add(e.Ctx, d, x, y)
 //@   ensures ret == d
+//@ func (*ErrDecimal).Int64
+//@   props C03 C17 C04 C06
+//@   exported
+//@   requires writable(e) && closed(e.Flags) && inv(d) && -2000000000 <= d.Exponent
+//@   assigns e.err
+//@   ensures [pending] old(e.err != nil || (e.Ctx != nil && trapped(e.Ctx, e.Flags))) ==> (ret == 0 && e.err != nil)
+//@   ensures [value] !old(e.err != nil || (e.Ctx != nil && trapped(e.Ctx, e.Flags))) ==> ((e.err == nil <==> (d.Form == Finite && isinteger(d) && signed(d.Negative, intmag(d)) >= -9223372036854775808 && signed(d.Negative, intmag(d)) <= 9223372036854775807)) && (e.err == nil ==> ret == signed(d.Negative, intmag(d))))
 //@ func (*ErrDecimal).Mul
 //@   props C03
 //@   requires writable(e) && writable(d) && e.Ctx != nil && closed(e.Flags) && inv(x) && inv(y)
